@@ -207,20 +207,21 @@ func fq(msg sdk.Msg) string {
 // ValidateBasic, handler on a cache branch with a fresh event manager, write-back only on success;
 // a panic is recovered and counts as a failed transaction.
 func (w *World) Exec(st State, msg sdk.Msg) (res TxResult) {
-	if err := msg.ValidateBasic(); err != nil {
-		return TxResult{Err: "validate-basic: " + err.Error()}
-	}
 	h := w.App.MsgServiceRouter().Handler(fq(msg))
 	if h == nil {
 		panic("no handler for " + fq(msg))
 	}
-	cctx, write := st.Ctx.CacheContext()
-	cctx = cctx.WithEventManager(sdk.NewEventManager())
+	// BaseApp.runTx recovers panics of validateBasicTxMsgs and of the handlers alike
 	defer func() {
 		if r := recover(); r != nil {
 			res = TxResult{Err: fmt.Sprintf("panic: %v", r), Panic: true}
 		}
 	}()
+	if err := msg.ValidateBasic(); err != nil {
+		return TxResult{Err: "validate-basic: " + err.Error()}
+	}
+	cctx, write := st.Ctx.CacheContext()
+	cctx = cctx.WithEventManager(sdk.NewEventManager())
 	r, err := h(cctx, msg)
 	if err != nil {
 		return TxResult{Err: err.Error()}
